@@ -20,7 +20,7 @@ import PoetryVerif.Proofs.PyConvIn
 import PoetryVerif.Proofs.PyConvLeafAlts
 import PoetryVerif.Proofs.VRangeOps
 import PoetryVerif.Proofs.MarkerProj
-import PoetryVerif.Proofs.PyConvWildRange
+import PoetryVerif.Proofs.PyConvWildNe
 
 set_option linter.unusedSimpArgs false
 set_option linter.unusedVariables false
@@ -106,7 +106,7 @@ the parser's result for `>=V`, `>V`, `<=V`, `<V`, `^V`, `~V`, `~=V` (and `==V` f
 range constraint in `PyDom` — in both parser modes (`m`).  The wildcard forms `V.*`, `!=V.*` are outside: in
 `parse_constraint` their bounds are dev-releases (`>=3.8.dev0,<3.9.dev0`), literals the formalised reference
 (`Spec.Pep508`, final-release literals) does not cover; `V.*` is proved against poetry's own evaluation below
-(`createNested_wildcard_partial`), `!=V.*` is compared by the correspondence only. -/
+(`createNested_wildcard_partial`, `createNested_excluded_wildcard_partial`). -/
 theorem listed_operators_in_domain (a : Nat) (r : List Nat) (m : Bool) (h3 : (a :: r).length ≤ 3) :
     (∃ rc, parseSingle ('>' :: '=' :: relChars (a :: r)) m = .ok (.single rc) ∧ PyDom rc = true) ∧
     (∃ rc, parseSingle ('>' :: relChars (a :: r)) m = .ok (.single rc) ∧ PyDom rc = true) ∧
@@ -399,5 +399,15 @@ theorem createNested_wildcard1_partial (E : Env) (S : LeafSpec (leafEval E) (Com
   refine ⟨_, parseConstraint_star1 a, fun txt m ht hm => ?_⟩
   rw [(createNested_wild E S X Y Z hE a [] (a + 1) [] (by simp) (by simp) txt m ht hm).2]
   simp [VC.allowsPlain, VC.flatten, RC.allows]
+
+/-- **`!=X.Y.*` converts exactly**: `parse_constraint("!=a.b.*")` is `<a.b.dev0 || >=a.(b+1).dev0`,
+`create_nested_marker` prints `(python_version < "a.b.dev0") or (python_version >= "a.(b+1).dev0")`, and the marker
+read back validates to membership of `X.Y.Z` in the union. -/
+theorem createNested_excluded_wildcard_partial (E : Env) (S : LeafSpec (leafEval E) (CompLeaf E)) (X Y Z : Nat)
+    (hE : EnvPy E X Y Z) (a b : Nat) :
+    ∃ c, parseConstraint ("!=" ++ Version.relText [a, b] ++ ".*") = .ok c ∧
+      ∀ txt m, createNestedMarker "python_version" c = .ok txt → parseMarker txt = .ok m →
+        M.validate E m = .ok (c.allowsPlain (pyV X Y Z)) :=
+  ⟨_, parseConstraint_neStar2 a b, fun txt m ht hm => (createNested_neWild E S X Y Z hE a b txt m ht hm).2⟩
 
 end Poetry.C11
